@@ -873,11 +873,21 @@ def insCtx (glyphs : Nat → Option Nat) : Ctx where
 
 /-! ### non-contextual (type 4) -/
 
-/-- the body of `for info in 0..ac.buffer.len { … }` of the non-contextual subtable.
-    D17: the range block looks at `buffer.cur(0)` — `idx` is never advanced by this loop. -/
+/-- the range block of the non-contextual subtable: the range of glyph `i`'s own cluster
+    (`ac.buffer.info[info].cluster`, as HarfBuzz's NoncontextualSubtable::apply; before the repair of D17
+    it was `cur(0)` of the never-advanced `idx`). -/
+def ncRange (rf : Array Range) (subFlags : Nat) (b : Buf) (i : Nat) : Option Nat → M (Bool × Option Nat)
+  | none => pure (false, none)
+  | some lr => do
+    let g ← rd b.info i
+    let range ← findRange rf lr g.cl
+    let r ← rdR rf range
+    pure (r.flags &&& subFlags == 0, some range)
+
+/-- the body of `for info in 0..ac.buffer.len { … }` of the non-contextual subtable. -/
 def ncStep (lk : Lookup) (rf : Array Range) (subFlags : Nat) (i : Nat) (st : Buf × Option Nat) :
     M (Buf × Option Nat) := do
-  let r ← rangeBlock rf subFlags st.1 st.2
+  let r ← ncRange rf subFlags st.1 i st.2
   if r.1 then pure (st.1, r.2)
   else do
     let g ← rd st.1.info i
